@@ -571,3 +571,35 @@ pub fn check_c18(ctx: &Ctx, out: &mut Outcome, q: u32, t: u32) {
         out.coverage.insert("fired_by_kind_and_user_code".into(), Value::Object(m));
     }
 }
+
+// ------------------------------------------------------------------------------ C19
+
+pub fn check_c19(ctx: &Ctx, out: &mut Outcome) {
+    let r = crate::e5::run_e5(&ctx.verif_dir);
+    out.coverage.insert("evaluations".into(), json!(r.programs + r.marker_rows));
+    out.coverage.insert("distinct_nontrivial".into(), json!(r.probes + r.marker_rows));
+    out.coverage.insert("programs".into(), json!(r.programs));
+    out.coverage.insert("misuse_programs".into(), json!(r.probes));
+    out.coverage.insert("positive_controls".into(), json!(r.controls));
+    out.coverage.insert("marker_table_rows".into(), json!(r.marker_rows));
+    out.coverage.insert("marker_table_exhaustive".into(), json!(true));
+    out.coverage.insert("programs_by_template".into(), json!(r.by_template));
+    out.coverage.insert("catalogue_methods".into(), json!(crate::e5::catalogue().len()));
+    out.coverage.insert(
+        "rule".into(),
+        json!("program generator: every public reference- or iterator-returning method (catalogue checked against a source scan of the anchored files) x misuse templates {hold across purge, hold across put, drop the cache while borrowed, outlive the cache, two live &mut, shared lookup while &mut is live, send a shared-reference iterator over !Sync values / share or send a cache of !Sync / !Send values across threads}; each misuse program must be rejected with the expected error code inside its own function and its positive control (same statements, legal order / Sync value type) must compile; plus the complete Send/Sync table of the 5 cache and 10 iterator types over the 4x4 lattice K,V in {Send+Sync, Send only, Sync only, neither}, judged by the implications soundness needs. Every (method, template) pair and every table row is a distinct non-trivial case."),
+    );
+    out.coverage.insert("samples".into(), Value::Array(r.samples.clone()));
+    out.assumptions.push("rustc's borrow checker and trait solver are the oracle; a finite template set cannot show that no safe program misuses the API".into());
+    if let Some((v, payload)) = r.violation {
+        if ctx.known.matches(&ctx.id, &v.sig).is_none() {
+            let path = write_replay(&ctx.replay_dir(), &ctx.id, "e5", payload, &v);
+            out.violations.push((path, v.msg));
+        } else {
+            out.known_lines.push(format!("KNOWN-FINDING: property=C19 sig={}", v.sig));
+        }
+    }
+    if let Some(why) = r.inconclusive {
+        out.inconclusive = Some(why);
+    }
+}
